@@ -116,7 +116,7 @@ def bodyInstrs {M Mr n nrot : Nat} (fcIdx : Fin M → Fin Mr) (R : Fin nrot → 
 theorem distributeBody_eq {M Mr n nrot : Nat} (fcIdx : Fin M → Fin Mr) (R : Fin nrot → Mat3 K)
     (perms : Fin nrot → Fin n → Fin n) (i ri : Fin M) (sym : Fin nrot) (fc : Rows Mr n K) :
     distributeBody fcIdx R perms i ri sym fc = (bodyInstrs fcIdx R perms i ri sym).foldl exec fc := by
-  simp only [distributeBody, bodyInstrs, List.foldl_flatMap, List.foldl_cons, List.foldl_nil, exec]
+  simp only [distributeBody, distributeOther, bodyInstrs, List.foldl_flatMap, List.foldl_cons, List.foldl_nil, exec]
 
 theorem mem_bodyInstrs {M Mr n nrot : Nat} {fcIdx : Fin M → Fin Mr} {R : Fin nrot → Mat3 K}
     {perms : Fin nrot → Fin n → Fin n} {i ri : Fin M} {sym : Fin nrot} {a : Instr Mr n K}
